@@ -3,6 +3,7 @@
 //! Run/C17.v and prints the same observations.
 //!
 //!   c17 tccache   case   = ( cap ( (content id) ... ) ( id ... ) ( (path content mtime) ... ) ( op ... ) )
+//!                 ( insert_with id content fail [rewind] ): the writer writes `content`, then seeks back `rewind` bytes
 //!   c17 mount     case   = ( cap ( (content id) ... ) ( id ... ) ( (dir/ pages) ... ) ( op ... ) )
 //!                 like tccache, but the listed shard directories of the cache are mount points of their own
 //!                 (tmpfs of `pages` 4 KiB pages, in a PRIVATE mount namespace of this process; always
@@ -10,6 +11,10 @@
 //!                 contents may be written ( rep byte n ); observations give lengths instead of contents.
 //!                 Prints `(skipped)` for every case when mount namespaces are unavailable.
 //!   c17 mountcheck       -> 1 / 0
+//!   c17 server    case   = ( cap ( (content id) ... ) ( id ... ) ( op ... ) )   the build server in front of the cache:
+//!                 handed to `$VERIF_C17_DIST __verif_paths tc` (the real `Server` of the sccache-dist binary);
+//!                 prints `(skipped)` when that binary or its `tc` leg is not there.
+//!   c17 servercheck      -> 1 / 0
 //!   c17 client    case   = ( cap ( (content id) ... ) ( op ... ) )      the client side: ClientToolchains
 //!   c17 hash      line   = ( content ... )   ->   ( id ... )     (real ids: sccache::util::Digest = BLAKE3)
 //!
@@ -22,7 +27,7 @@ use sccache::dist::{ClientToolchains, TcCache, Toolchain};
 use sccache::lru_disk_cache::Error as LruError;
 use sccache::util::Digest;
 use std::ffi::OsStr;
-use std::io::{Read, Write};
+use std::io::{Read, Seek, Write};
 use std::os::unix::ffi::OsStrExt;
 use std::path::{Path, PathBuf};
 use vh::{catch, Sx};
@@ -260,9 +265,15 @@ impl World {
                     Some(tc) => tc,
                     None => return ("rejected".into(), none),
                 };
+                // optional 5th argument: the writer does not leave the file cursor at the end of what it wrote
+                // (it seeks back `rewind` bytes, as a writer patching a header or using positional writes would)
+                let rewind = op.arg(4).u64();
                 let r = self.cache.as_mut().unwrap().insert_with(&tc, |mut f| {
                     f.write_all(&content)?;
                     f.flush()?;
+                    if rewind > 0 {
+                        f.seek(std::io::SeekFrom::Start((content.len() as u64).saturating_sub(rewind)))?;
+                    }
                     if fail {
                         // the client went away in the middle of the upload
                         Err(std::io::Error::new(std::io::ErrorKind::UnexpectedEof, "upload cut short"))
@@ -514,6 +525,58 @@ fn run_client(case: &Sx) -> Sx {
     Sx::L(out)
 }
 
+/// The sccache-dist binary built with the hooks, if it has the `tc` leg.
+fn server_hook() -> Option<String> {
+    if std::env::var_os("VERIF_C17_DIST_DISABLED").is_some() {
+        return None;
+    }
+    let bin = std::env::var("VERIF_C17_DIST").ok()?;
+    let out = std::process::Command::new(&bin).args(["__verif_paths", "tc_probe"]).output().ok()?;
+    if String::from_utf8_lossy(&out.stdout).trim() == "tc_ok" {
+        Some(bin)
+    } else {
+        None
+    }
+}
+
+fn run_server() {
+    use std::io::BufRead;
+    let mut child = server_hook().and_then(|bin| {
+        std::process::Command::new(bin)
+            .args(["__verif_paths", "tc"])
+            .stdin(std::process::Stdio::piped())
+            .stdout(std::process::Stdio::piped())
+            .stderr(std::process::Stdio::null())
+            .spawn()
+            .ok()
+    });
+    let mut pipes = child.as_mut().map(|c| (c.stdin.take().unwrap(), std::io::BufReader::new(c.stdout.take().unwrap())));
+    vh::run_lines(|case| {
+        let (stdin, stdout) = match pipes.as_mut() {
+            Some(p) => p,
+            None => return Sx::L(vec![Sx::sym("skipped")]),
+        };
+        for e in case.arg(1).list() {
+            if real_id(e.arg(0).bytes()) != e.arg(1).bytes() {
+                return Sx::L(vec![Sx::sym("bad_table")]);
+            }
+        }
+        let hook_case = Sx::L(vec![case.arg(0).clone(), case.arg(2).clone(), case.arg(3).clone()]);
+        if writeln!(stdin, "{}", hook_case).and_then(|_| stdin.flush()).is_err() {
+            return Sx::L(vec![Sx::sym("harness_died")]);
+        }
+        let mut line = String::new();
+        match stdout.read_line(&mut line) {
+            Ok(n) if n > 0 => Sx::parse(line.trim()).unwrap_or_else(|_| Sx::L(vec![Sx::sym("unparsable")])),
+            _ => Sx::L(vec![Sx::sym("harness_died")]),
+        }
+    });
+    drop(pipes);
+    if let Some(mut c) = child {
+        let _ = c.wait();
+    }
+}
+
 fn main() {
     vh::quiet_panics();
     let leg = std::env::args().nth(1).unwrap_or_default();
@@ -521,6 +584,10 @@ fn main() {
         vh::run_lines(|x| Sx::L(x.list().iter().map(|c| Sx::B(real_id(&content_arg(c)))).collect()));
     } else if leg == "client" {
         vh::run_lines(run_client);
+    } else if leg == "servercheck" {
+        println!("{}", if server_hook().is_some() { 1 } else { 0 });
+    } else if leg == "server" {
+        run_server();
     } else if leg == "mountcheck" {
         println!("{}", if private_mount_namespace() { 1 } else { 0 });
     } else if leg == "mount" {
